@@ -187,6 +187,72 @@ structure ConnSt where
   o2n : Dict Label
   forBlock : List Label
 
+/-- one iteration of the `for _gate in other.top_sort(inverse=True)` loop of `connect_circuit` -/
+def connStep (other : Circuit) (mapping : Dict Label) (pre : String) (right : Bool)
+    (acc : R ConnSt) (cur : Label) : R ConnSt :=
+  match acc with
+  | .error e => .error e
+  | .ok st => match other.find? cur with
+    | none => .error "GateDoesntExistError"
+    | some g =>
+      if !(Dict.contains mapping cur) then
+        let newL := pre ++ cur
+        let o2n := Dict.set st.o2n cur newL
+        match mapLabels o2n g.ops with
+        | .error e => .error e
+        | .ok ops => match st.c.addGate ⟨newL, g.ty, ops⟩ with
+          | .error e => .error e
+          | .ok c' => .ok ⟨c', o2n, if g.ty != INPUT && !st.forBlock.contains newL
+                                  then st.forBlock ++ [newL] else st.forBlock⟩
+      else if right then
+        match Dict.get? st.o2n cur with
+        | none => .error "Py:KeyError"
+        | some lbl => match mapLabels st.o2n g.ops with
+          | .error e => .error e
+          | .ok ops =>
+            let c1 := ops.foldl (fun c o => c.addUser o lbl) st.c
+            let c2 := if c1.hasGate lbl then c1.setGate ⟨lbl, g.ty, ops⟩
+                      else { c1 with gates := c1.gates ++ [⟨lbl, g.ty, ops⟩] }
+            .ok ⟨c2, st.o2n, st.forBlock⟩
+      else .ok st
+
+/-- the tail of `connect_circuit`: outputs, inputs, blocks -/
+def connFinish (c other : Circuit) (st : ConnSt) (thisC otherC : List Label) (name : Label)
+    (pre : String) : R Circuit :=
+  let copyInputs := c.inputs
+  match mapLabels st.o2n (other.outputs.filter (fun o => !otherC.contains o)) with
+  | .error e => .error e
+  | .ok outs2 =>
+    match st.c.setOutputs (st.c.outputs.filter (fun o => !thisC.contains o) ++ outs2) with
+    | .error e => .error e
+    | .ok c1 =>
+      match mapLabels st.o2n (other.inputs.filter (fun i => !otherC.contains i)) with
+      | .error e => .error e
+      | .ok ins2 =>
+        if copyInputs.any (fun i => !c1.hasGate i) then .error "Py:KeyError" else
+        match c1.setInputs (copyInputs.filter (fun i => ((c1.find? i).map (·.ty)) == some INPUT) ++ ins2) with
+        | .error e => .error e
+        | .ok c2 =>
+          let bstep : R Circuit → Block → R Circuit := fun acc b => match acc with
+            | .error e => .error e
+            | .ok cc =>
+              let nb := pre ++ b.name
+              if cc.blocks.any (fun x => x.name == nb) then .error "CircuitValidationError" else
+              match mapLabels st.o2n b.inputs, mapLabels st.o2n b.gates, mapLabels st.o2n b.outputs with
+              | .ok i, .ok g, .ok o => .ok { cc with blocks := cc.blocks ++ [⟨nb, i, g, o⟩] }
+              | _, _, _ => .error "Py:KeyError"
+          match other.blocks.foldl bstep (.ok c2) with
+          | .error e => .error e
+          | .ok c3 =>
+            if name == "" then .ok c3 else
+            match mapLabels st.o2n other.inputs, mapLabels st.o2n other.outputs with
+            | .ok i, .ok o =>
+              let nb : Block := ⟨name, i, st.forBlock, o⟩
+              if c3.blocks.any (fun x => x.name == name)
+              then .ok { c3 with blocks := c3.blocks.map (fun x => if x.name == name then nb else x) }
+              else .ok { c3 with blocks := c3.blocks ++ [nb] }
+            | _, _ => .error "Py:KeyError"
+
 /-- `Circuit.connect_circuit(other, this_connectors, other_connectors, right_connect=, name=,
 add_prefix=)` -/
 def connectCircuit (c other : Circuit) (thisC otherC : List Label) (right : Bool) (name : Label)
@@ -203,72 +269,14 @@ def connectCircuit (c other : Circuit) (thisC otherC : List Label) (right : Bool
                else otherC.any (fun l => ((other.find? l).map (·.ty)) != some INPUT))
         then .error "CreateBlockError"
       else
-        let copyInputs := c.inputs
         let pre := if name != "" && addPrefix then name ++ "@" else ""
         let mapping : Dict Label := (otherC.zip thisC).foldl (fun m p => Dict.set m p.1 p.2) []
         match other.topSort true with
         | .cyclic => .error "CircuitIsCyclicalError"
         | .ok order =>
-          let step : R ConnSt → Label → R ConnSt := fun acc cur => match acc with
-            | .error e => .error e
-            | .ok st => match other.find? cur with
-              | none => .error "GateDoesntExistError"
-              | some g =>
-                if !(Dict.contains mapping cur) then
-                  let newL := pre ++ cur
-                  let o2n := Dict.set st.o2n cur newL
-                  match mapLabels o2n g.ops with
-                  | .error e => .error e
-                  | .ok ops => match st.c.addGate ⟨newL, g.ty, ops⟩ with
-                    | .error e => .error e
-                    | .ok c' => .ok ⟨c', o2n, if g.ty != INPUT && !st.forBlock.contains newL
-                                            then st.forBlock ++ [newL] else st.forBlock⟩
-                else if right then
-                  match Dict.get? st.o2n cur with
-                  | none => .error "Py:KeyError"
-                  | some lbl => match mapLabels st.o2n g.ops with
-                    | .error e => .error e
-                    | .ok ops =>
-                      let c1 := ops.foldl (fun c o => c.addUser o lbl) st.c
-                      let c2 := if c1.hasGate lbl then c1.setGate ⟨lbl, g.ty, ops⟩
-                                else { c1 with gates := c1.gates ++ [⟨lbl, g.ty, ops⟩] }
-                      .ok ⟨c2, st.o2n, st.forBlock⟩
-                else .ok st
-          match order.foldl step (.ok ⟨c, mapping, []⟩) with
+          match order.foldl (connStep other mapping pre right) (.ok ⟨c, mapping, []⟩) with
           | .error e => .error e
-          | .ok st =>
-            match mapLabels st.o2n (other.outputs.filter (fun o => !otherC.contains o)) with
-            | .error e => .error e
-            | .ok outs2 =>
-              match st.c.setOutputs (st.c.outputs.filter (fun o => !thisC.contains o) ++ outs2) with
-              | .error e => .error e
-              | .ok c1 =>
-                match mapLabels st.o2n (other.inputs.filter (fun i => !otherC.contains i)) with
-                | .error e => .error e
-                | .ok ins2 =>
-                  if copyInputs.any (fun i => !c1.hasGate i) then .error "Py:KeyError" else
-                  match c1.setInputs (copyInputs.filter (fun i => ((c1.find? i).map (·.ty)) == some INPUT) ++ ins2) with
-                  | .error e => .error e
-                  | .ok c2 =>
-                    let bstep : R Circuit → Block → R Circuit := fun acc b => match acc with
-                      | .error e => .error e
-                      | .ok cc =>
-                        let nb := pre ++ b.name
-                        if cc.blocks.any (fun x => x.name == nb) then .error "CircuitValidationError" else
-                        match mapLabels st.o2n b.inputs, mapLabels st.o2n b.gates, mapLabels st.o2n b.outputs with
-                        | .ok i, .ok g, .ok o => .ok { cc with blocks := cc.blocks ++ [⟨nb, i, g, o⟩] }
-                        | _, _, _ => .error "Py:KeyError"
-                    match other.blocks.foldl bstep (.ok c2) with
-                    | .error e => .error e
-                    | .ok c3 =>
-                      if name == "" then .ok c3 else
-                      match mapLabels st.o2n other.inputs, mapLabels st.o2n other.outputs with
-                      | .ok i, .ok o =>
-                        let nb : Block := ⟨name, i, st.forBlock, o⟩
-                        if c3.blocks.any (fun x => x.name == name)
-                        then .ok { c3 with blocks := c3.blocks.map (fun x => if x.name == name then nb else x) }
-                        else .ok { c3 with blocks := c3.blocks ++ [nb] }
-                      | _, _ => .error "Py:KeyError"
+          | .ok st => connFinish c other st thisC otherC name pre
 
 /-- `Circuit.replace_subcircuit(subcircuit, inputs_mapping, outputs_mapping)`; mappings as
 association lists in dict order -/
